@@ -25,6 +25,7 @@ func (w *World) registerMoreIntrinsics() {
 	w.registerPackIntrinsics()
 	w.registerRaceIntrinsics()
 	w.registerFileIntrinsics()
+	w.registerSessionCodecIntrinsics()
 	terms := func(e *Exec, v Value) []*Term {
 		var ts []*Term
 		for _, x := range e.sliceElems(v.(*SliceVal)) {
